@@ -3,7 +3,7 @@
 
 use raqote::BlendMode;
 use sw_composite::blend::*;
-use sw_composite::*;
+use sw_composite::{alpha_lerp, alpha_mul, alpha_to_alpha256, lerp, muldiv255, over, over_in, over_in_in};
 
 /// blend(source, previous) for a mode. May panic for the non-separable modes (sw-composite
 /// 0.7.16 overflows in `lum()` when overflow checks are on) - callers use `try_blend`.
